@@ -348,10 +348,24 @@ def parts_index(U: cu.Universe) -> list[list[int]]:
         for a in cu.CORE12:
             for b in cu.CORE12:
                 comps[tmpl.format(x=txt[a], y=txt[b])] = [a, b]
+    for name in atom_names:  # the atoms Type[B], Type[K] have the atoms B, K as components
+        if name.startswith("Type[") and name[5:-1] in atom_names:
+            comps.setdefault(name, []).append(name[5:-1])
     out = []
     for lab in U.labels:
         out.append([U.index[a] for a in comps.get(lab, []) if a in U.index])
     return out
+
+
+def lifted_from(parts: list[list[int]], failing: set[tuple], key: tuple, symmetric: bool) -> tuple | None:
+    """A failing tuple of types is a lifted manifestation if replacing some of its members by one of their
+    immediate components (or leaving them) yields a DIFFERENT failing tuple; returns that tuple."""
+    for cand in itertools.product(*[[x] + parts[x] for x in key]):
+        if cand == key or len(set(cand)) == 1:
+            continue
+        if cand in failing or (symmetric and cand[::-1] in failing and cand[::-1] != key):
+            return cand
+    return None
 
 
 def reduce_and_group(U: cu.Universe, fails: list[tuple]) -> tuple[list[Violation], dict]:
@@ -451,8 +465,14 @@ def transitivity(U: cu.Universe, rows: dict[int, int], members_idx: list[int]) -
     def coarse(k: str) -> str:
         return "TupleFixed" if k.startswith("Tuple") and k[5:].isdigit() else k
 
+    parts = parts_index(U)
+    failing = set(bad_triples)
+    n_lifted = 0
     groups: "OrderedDict[tuple, list]" = OrderedDict()
     for s, t, u in bad_triples:
+        if lifted_from(parts, failing, (s, t, u), False) is not None:
+            n_lifted += 1
+            continue
         groups.setdefault((coarse(shapes[t]), coarse(shapes[u])), []).append((s, t, u))
     viol = []
     for k, members in groups.items():
@@ -464,14 +484,25 @@ def transitivity(U: cu.Universe, rows: dict[int, int], members_idx: list[int]) -
             {"kind": "triple", "tier": U.tier, "law": "transitivity", "s": U.labels[s], "t": U.labels[t],
              "u": U.labels[u], "group_size": len(members),
              "members": [[U.labels[a], U.labels[b], U.labels[c]] for a, b, c in members[:MAX_MEMBERS]]}))
-    return viol, {"any_free_types": AF.bit_count(), "chains_checked": chains, "failing_triples": n_bad}
+    return viol, {"any_free_types": AF.bit_count(), "chains_checked": chains, "failing_triples": n_bad,
+                  "lifted_triples": n_lifted, "cause_groups": len(groups)}
 
 
 def mismatch_violations(U: cu.Universe, mism: list[tuple]) -> list[Violation]:
     shapes = [cl.kind_of(t, 0) for t in U.types]
+    lifted_n: dict[tuple, int] = {}
+    parts = parts_index(U)
+    failing = {(m[2], m[3]) for m in mism}
     groups: "OrderedDict[tuple, list]" = OrderedDict()
     for m in mism:
         mode, op, s, t = m[0], m[1], m[2], m[3]
+        root = lifted_from(parts, failing, (s, t), True)
+        if root is not None:
+            # depth-1 construction over a pair whose own answer is cache dependent: same cause
+            k = tuple(sorted((shapes[root[0]], shapes[root[1]])))
+            if k in groups or (root[0], root[1]) in failing or (root[1], root[0]) in failing:
+                lifted_n[k] = lifted_n.get(k, 0) + 1
+                continue
         groups.setdefault(tuple(sorted((shapes[s], shapes[t]))), []).append(m)
     out = []
     for (k1, k2), members in groups.items():
@@ -484,7 +515,8 @@ def mismatch_violations(U: cu.Universe, mism: list[tuple]) -> list[Violation]:
         modes = sorted({x[0] for x in members})
         what = (f"{op}({U.labels[s]!r}, {U.labels[t]!r}) = {ref!r} right after reset_all_subtype_caches() but {got!r} "
                 f"in mode {mode}" + (f" after the single query {prior[0]}({U.labels[prior[1]]!r}, {U.labels[prior[2]]!r})" if prior else "")
-                + f" [{len(members)} cache-dependent answers for pairs of shapes {k1} x {k2}, ops {sorted({x[1] for x in members})}, modes {modes}]")
+                + f" [{len(members)} cache-dependent answers for pairs of shapes {k1} x {k2}, ops {sorted({x[1] for x in members})}, modes {modes}; "
+                f"{lifted_n.get((k1, k2), 0)} more in depth-1 constructions over such pairs]")
         out.append(Violation(
             f"cache_dependence|{op}|{U.strs[s]}|{U.strs[t]}", what,
             {"kind": "cache", "tier": U.tier, "op": op, "s": U.labels[s], "t": U.labels[t], "mode": mode,
